@@ -250,8 +250,15 @@ func (expr *Expression) Materialize(ctx context.Context, env Environment) (execu
 
 		fields := expr.ObjectFieldAccess.Object.Type.Struct.Fields
 		if expr.ObjectFieldAccess.Object.Type.TypeID == octosql.TypeIDUnion {
-			// Nullable object case
-			fields = expr.ObjectFieldAccess.Object.Type.Union.Alternatives[1].Struct.Fields
+			// Nullable object case. The object alternative is not at a fixed position:
+			// TypeSum orders alternatives by TypeID (NULL | {...}), the type assertion inserted by the typechecker
+			// for unions with other alternatives is built as {...} | NULL.
+			for _, alternative := range expr.ObjectFieldAccess.Object.Type.Union.Alternatives {
+				if alternative.TypeID == octosql.TypeIDStruct {
+					fields = alternative.Struct.Fields
+					break
+				}
+			}
 		}
 
 		fieldIndex := 0
